@@ -32,19 +32,25 @@ def world3 : World where
   cls := fun i => [0, 2, 1].getD i 0
   mro := fun c => if c = 0 then [0] else [c, 0]
 
-/-- **known finding C20-topocentric-ctor-instance-only.**  The constructor `TopocentricOrientation.__init__` of the
-current source (site regenerated from the AST) stores `<station>_to_<parent>` in the instance dict of the new
-object only: after `TopocentricOrientation("2", …, parent=0)` the two nodes are linked and routed, the station
-converts to its parent, but from the parent (and from everywhere else) `convert_to` raises
-`Unknown transformation 0 <-> 2`.  `create_station` repairs this by a second registration on `Orientation`. -/
-theorem topo_ctor_alone_unresolvable :
-    registersRoot BeyondVerif.Generated.siteTopocentricOrientationCtor = false ∧
-    ∃ st, runSites world3 0 6 {} [(BeyondVerif.Generated.siteTopocentricOrientationCtor, ⟨2, 0, 0⟩)] = some st ∧
-      Reg.path world3.nm 6 st.g 0 2 = .ok [0, 2] ∧
-      convert world3 6 st 0 2 = .unknownTransformation 0 2 ∧
-      convert world3 6 st 2 0 = .ok [⟨2, 0, true, some 2⟩] := by
-  refine ⟨by decide, _, rfl, ?_⟩
-  decide
+/-- the constructor `TopocentricOrientation.__init__` as it was before the fix of finding
+C20-topocentric-ctor-instance-only: `<station>_to_<parent>` stored in the instance dict of the new object only -/
+def siteInstanceOnly : List SiteOp := [.setattr (.inst .self) .self .parent .self, .link .parent .self]
+
+/-- **regression witness for the fixed finding C20-topocentric-ctor-instance-only.**  With the former constructor the two
+nodes are linked and routed, the station converts to its parent, but from the parent (and from everywhere else)
+`convert_to` raises `Unknown transformation 0 <-> 2`.  The constructor of the CURRENT source (site regenerated from the
+AST) registers on the base class and resolves in both directions. -/
+theorem topo_ctor_instance_only_regression :
+    (registersRoot siteInstanceOnly = false ∧
+      ∃ st, runSites world3 0 6 {} [(siteInstanceOnly, ⟨2, 0, 0⟩)] = some st ∧
+        Reg.path world3.nm 6 st.g 0 2 = .ok [0, 2] ∧
+        convert world3 6 st 0 2 = .unknownTransformation 0 2 ∧
+        convert world3 6 st 2 0 = .ok [⟨2, 0, true, some 2⟩]) ∧
+    (registersRoot BeyondVerif.Generated.siteTopocentricOrientationCtor = true ∧
+      ∃ st, runSites world3 0 6 {} [(BeyondVerif.Generated.siteTopocentricOrientationCtor, ⟨2, 0, 0⟩)] = some st ∧
+        convert world3 6 st 0 2 = .ok [⟨0, 2, false, some 2⟩] ∧
+        convert world3 6 st 2 0 = .ok [⟨2, 0, true, some 2⟩]) := by
+  refine ⟨⟨by decide, _, rfl, ?_⟩, ⟨by decide, _, rfl, ?_⟩⟩ <;> decide
 
 /-- a site that stores the method on `type(parent)`: fine when the parent is a plain base-class object, but below a
 parent of a SUBCLASS (object 1, class 2) the method is invisible from base-class objects: 0 — 1 — 2 are linked and
